@@ -150,11 +150,12 @@ def oracle(case, items):
     tr = model_trace(case, PID)
     X = max(norm2(a.x), norm2(s.x0))
     if tr is not None and tr.X is not None:
+        # the model's trace stands for the implementation's run only when both ended the same way and the trace is
+        # finite (a finite Ok answer cannot follow a non-finite iterate); otherwise the allowance is computed from the
+        # answer alone, which is the smaller (stricter) one
         if tr.panic or tr.ok != a.ok or tr.k != a.k: STATS["model_outcome_differs"] += 1
-        if tr.X != tr.X or tr.X == math.inf:
-            STATS["unbounded_allowance"] += 1
-            return None
-        X = max(X, tr.X)
+        elif tr.X != tr.X or tr.X == math.inf: STATS["unbounded_allowance"] += 1
+        else: X = max(X, tr.X)
     unit = EPS * (spec_norm(s.dense()) * X + nb) / nbp
     allow = 64.0 * (a.k + 1) * unit
     if unit > 0:
